@@ -1,6 +1,4 @@
 import BridgeVerif.Model.Notation
-import BridgeVerif.Translated.Notation
-import BridgeVerif.Translated.Contract
 /-!
 # C15 — Card, call, contract, seat and vulnerability notations are exact inverses
 Every domain is finite; each statement is decided by kernel evaluation over the complete domain.
@@ -116,12 +114,5 @@ theorem contract_text_injective :
       contractStr ⟨some b, x, xx, .none, none⟩ = contractStr ⟨some b', x', xx', .none, none⟩ →
         b = b' ∧ (Contract.mk (some b) x xx .none none).dbl = (Contract.mk (some b') x' xx' .none none).dbl := by
   decide +kernel
-
-/-! ## The notation functions AS TRANSLATED from the source on this run are the model functions above:
-`Translated/Notation.lean` and `Translated/Contract.lean` (kernel evaluation of `Generated/PyCore.lean` under the MiniPy
-interpreter over the complete finite domains); audited with this property. -/
-
-theorem translated_contract_is_model (c : Contract) : Translated.contractAgrees c = true :=
-  Translated.contract_translated c
 
 end Bridge.C15
